@@ -94,6 +94,27 @@ def jsonable(x, depth=0):
         return x
     return repr(x)
 
+# The function families are compositions of the double-double operators: their accuracy claims presuppose that +, -, *, / (every
+# operand pairing) are the algorithms C03 / C04 / C05 establish.  A defect in an operator body breaks these properties as well, so
+# their checks carry those form rules as a dependency obligation (rule RO).
+OPERATOR_DEPENDENT = ("C12", "C13", "C14", "C15", "C16", "C17", "C18", "C19")
+
+def operator_dependencies(ctx, rep, prop):
+    if prop not in OPERATOR_DEPENDENT:
+        return
+    from . import rules_arith
+    for pid, fn in (("C03", rules_arith.check_C03), ("C04", rules_arith.check_C04), ("C05", rules_arith.check_C05)):
+        sub = Report(pid, rep.tier, rep.seed)
+        fn(ctx, sub)
+        n_ok = 0
+        for o in sub.obl:
+            if o["status"] == "violation":
+                rep.fail("RO", "%s %s %s" % (pid, o["rule"], o["instance"]), "%s:%s" % (pid, o["key"]),
+                         "an operator this family is composed of does not conform (%s, rule %s): %s" % (pid, o["rule"], o["message"]), o.get("data"), o.get("where"))
+            else:
+                n_ok += 1
+        rep.ok("RO", "operator forms of %s" % pid, detail="%d obligations of %s hold on the operators this family is composed of" % (n_ok, pid), nontrivial=False)
+
 def run_property(prop, fn, level, tier, seed, checker_cmd, explanation, assumptions, rule_text):
     """Runs fn(ctx, rep); prints VIOLATION / KNOWN-FINDING lines; writes evidence; returns exit code."""
     rep = Report(prop, tier, seed)
@@ -101,6 +122,7 @@ def run_property(prop, fn, level, tier, seed, checker_cmd, explanation, assumpti
     known = Known()
     try:
         fn(ctx, rep)
+        operator_dependencies(ctx, rep, prop)
         if prop != "C11":
             from . import rules_c11, vg
             rules_c11.transfer(ctx, rep, set(vg.COVERED), prop)
